@@ -123,3 +123,10 @@ Theorem C04_schema_extend_shared_fields_partial : forall q bfs fs fs',
               (forall v, total v = true -> conforms sc' v -> accepts sb v).
 Proof. exact schema_extend_shared_fields. Qed.
 Print Assumptions C04_schema_extend_shared_fields_partial.
+
+(* The hypothesis [wf] of the theorems above is decidable; the harness evaluates [wfb], [keys_ok]
+   and [sizes_ok] (model run) on every spec the constructors build and on every spec an extension
+   returns, so the theorems apply to the states the library actually produces. *)
+Theorem C04_wf_decidable : forall s, wfb s = true -> wf s.
+Proof. exact wfb_wf. Qed.
+Print Assumptions C04_wf_decidable.
